@@ -14,6 +14,7 @@ pub mod c15;
 pub mod c16;
 pub mod c17;
 pub mod c18;
+pub mod c19;
 pub mod c20;
 
 use crate::report::Tier;
@@ -38,6 +39,7 @@ pub fn run(id: &str, tier: &Tier, child: bool) -> Result<i32, String> {
         "C16" => c16::c16(tier, child),
         "C17" => c17::c17(tier, child),
         "C18" => c18::c18(tier, child),
+        "C19" => c19::c19(tier),
         "C20" => c20::c20(tier),
         "C05" => e2_checks::c05(tier),
         _ => Err(format!("no check registered for {}", id)),
